@@ -45,6 +45,25 @@ CHECKS = {
         note='Lean kernel + standard axioms; Model/Interp.lean hand-written (Bulirsch-Stoer arithmetic is a parameter of the theorems; reproduction of rational '
              'functions between knots is sampled only); range checks at the four call sites are exercised through the calibration harness.',
         ref='DESIGN.md §6 C10'),
+    'C13': dict(
+        technique='Lean 4 proof on a hand model of the document tree and descriptor scanner/parser + line-by-line correspondence run + abstract-document oracle written from the manual',
+        text='Theorems for every tree, key and path: set-then-get returns the stored value with conflicting nodes replaced; sets and deletes leave other keys / '
+             'lower indices alone, insert/append/delete shift indices as documented, key order and uniqueness are kept, a refused set/delete/set_subtree returns '
+             'the tree unchanged; scanning quote_key(k) followed by any delimiter yields exactly k for every non-empty NUL-free byte string, so the quoted key '
+             'addresses exactly that entry. The model runs in lock-step with the compiled C (identical output lines) on bounded-exhaustive and random histories '
+             'and both must equal an independent document model.',
+        note='Lean kernel, no axioms beyond propext/Quot.sound where simp uses them; Model/PropTree.lean hand-written (hash chains modelled as an ordered association list), '
+             'tied by the correspondence run; tools/props/pspec.py is the oracle.',
+        ref='DESIGN.md §6 C13'),
+    'C14': dict(
+        technique='Lean 4 proof (mutual structural induction over the tree) of import(export t) = t under an explicit libyaml contract + round trips through the real library with the contract itself tested',
+        text='import_export: for every tree whose keys are non-empty, NUL-free and distinct, exporting, passing through any libyaml behaviour that satisfies the stated '
+             'contract, and importing into an empty root gives back the same tree (node kinds, key order, list order, nulls, every scalar byte). Uses the C13 theorem that '
+             'quote_key output re-parses to the key. The real export/import is run on adversarial trees (into registers holding unrelated content) and compared with '
+             'the document model; libyaml\'s node tree is compared with the contract on every document.',
+        note='Lean kernel + standard axioms; libyaml contract (kinds, order, bytes, plain/non-plain style of the null spellings) is a hypothesis, sampled every run; '
+             'Model/Yaml.lean hand-written.',
+        ref='DESIGN.md §6 C14'),
 }
 PENDING = {}
 ALL = ['C%02d' % i for i in range(1, 21)]
